@@ -44,6 +44,11 @@ func (P) Facts() []core.Fact {
 		tag = append(tag, int64(b))
 	}
 	fs = append(fs, core.Fact{Name: "tagTapSighash", Value: tag})
+	var ltag []int64
+	for _, b := range chainhash.TagTapLeaf {
+		ltag = append(ltag, int64(b))
+	}
+	fs = append(fs, core.Fact{Name: "tagTapLeaf", Value: ltag})
 	// the set of hash types calcTaprootSignatureHashRaw accepts, over the whole byte range
 	var valid []int64
 	for i := 0; i < 256; i++ {
@@ -273,6 +278,30 @@ func (P) exec(line string) string {
 		}
 		h, err := txscript.VerifCalcTaprootSignatureHashRaw(nil, txscript.SigHashType(uint32(atoi(f[5]))), tx,
 			int(atoi(f[4])), mkFetcher(tx, spent), o)
+		if err != nil {
+			return "err"
+		}
+		return hex.EncodeToString(h)
+	case "tapapi": // exported CalcTaprootSignatureHash / CalcTapscriptSignaturehash
+		tx := decTx(f[2])
+		spent := decSpent(f[3])
+		idx := int(atoi(f[4]))
+		ht := txscript.SigHashType(uint32(atoi(f[5])))
+		fetcher := mkFetcher(tx, spent)
+		sh := txscript.NewTxSigHashes(tx, fetcher)
+		var h []byte
+		var err error
+		if f[7] == "x" {
+			h, err = txscript.CalcTaprootSignatureHash(sh, ht, tx, idx, fetcher)
+		} else {
+			p := strings.Split(f[7], ":")
+			leaf := txscript.NewTapLeaf(txscript.TapscriptLeafVersion(atoi(p[0])), unhx(p[1]))
+			var opts []txscript.TaprootSigHashOption
+			if f[6] != "x" {
+				opts = append(opts, txscript.WithAnnex(unhx(f[6])))
+			}
+			h, err = txscript.CalcTapscriptSignaturehash(sh, ht, tx, idx, fetcher, leaf, opts...)
+		}
 		if err != nil {
 			return "err"
 		}
@@ -796,6 +825,35 @@ func (P) Generate(g *core.Gen) {
 			cls = "tap-big"
 		}
 		g.Case(cls, idx < nIn, fmt.Sprintf("C07 tap %s %s %d %d %s %s", encTx(tx), encSpent(spent), idx, ht, annex, ext))
+	}
+
+	// ---- exported taproot entry points with a real tap leaf (leaf hash computed by TapLeaf.TapHash)
+	for k := 0; k < g.N(800, 20000); k++ {
+		nIn, nOut := shapeCounts(r)
+		if nIn > 10 {
+			nIn = 1 + r.Intn(4)
+		}
+		tx, spent := randTx(r, nIn, nOut)
+		if r.Chance(3, 4) {
+			forceKind(r, spent, true)
+		}
+		idx := r.Intn(nIn + 1)
+		ht := validTap[r.Intn(len(validTap))]
+		if r.Chance(1, 8) {
+			ht = interestingHT[r.Intn(len(interestingHT))]
+		}
+		annex, leaf := "x", "x"
+		if r.Chance(2, 3) {
+			ver := r.Pick(0xc0, 0xc0, 0xc0, 0xc2, 0x00, 0xff, 0x50)
+			leaf = fmt.Sprintf("%d:%s", ver, hx(randScriptCode(r, randSig(r), false)))
+			if r.Chance(1, 8) {
+				leaf = fmt.Sprintf("%d:%s", ver, hx(r.Bytes(int(r.Pick(0, 252, 253, 300)))))
+			}
+			if r.Chance(1, 3) {
+				annex = hx(append([]byte{0x50}, r.Bytes(r.Intn(6))...))
+			}
+		}
+		g.Case("tap-api", idx < nIn, fmt.Sprintf("C07 tapapi %s %s %d %d %s %s", encTx(tx), encSpent(spent), idx, ht, annex, leaf))
 	}
 
 	// ---- nil midstate: panic unless the digest never reads it
